@@ -12,10 +12,16 @@ import (
 	"strings"
 )
 
-const (
-	repoDir    = "/repo"
-	harnessPkg = "verifharness/props"
-)
+const harnessPkg = "verifharness/props"
+
+// The repository under test: /repo, or $VERIF_REPO (a scratch copy with a
+// seeded change, so that /repo itself is never touched).
+var repoDir = func() string {
+	if r := os.Getenv("VERIF_REPO"); r != "" {
+		return r
+	}
+	return "/repo"
+}()
 
 // The root of the verification tree: $VERIF_ROOT, else the directory above
 // the executable's bin/ (so a snapshot of /verif built elsewhere is
